@@ -11,10 +11,14 @@ package pointstore
 //@   ensures len(result) == 18 && result[0] == 'p' && result[17] == suffix
 //@   ensures forall(k, 0, 16, result[1+k] == id[k])
 
+// The sentinel error is created at package initialisation and never reassigned.
+//@ globalinv ErrPointDoesNotExist != nil
+
 // ---- the point store writes exactly the documented keys (property C01) ----
 // Storage map:  n<node_id>i -> point UUID,  n<node_id>d -> data,  p<point_uuid>i -> node id.
 //@ func SetPoint
 //@   property C01
+//@   pure
 //@   safety -overflow
 //@   ensures result == nil ==> ncalls(Put) + ncalls(Delete) == 3
 //@   ensures ncalls(Put) >= 1 ==> len(callarg(Put, 1, 1)) == 10 && callarg(Put, 1, 1)[0] == 'n' && callarg(Put, 1, 1)[9] == 'i' && le64at(callarg(Put, 1, 1), 1) == point.NodeId
@@ -26,6 +30,7 @@ package pointstore
 
 //@ func DeletePoint
 //@   property C01
+//@   pure
 //@   safety -overflow
 //@   ensures result == nil ==> ncalls(Delete) == 3 && ncalls(Put) == 0
 //@   ensures ncalls(Delete) >= 1 ==> len(callarg(Delete, 1, 1)) == 18 && callarg(Delete, 1, 1)[0] == 'p' && callarg(Delete, 1, 1)[17] == 'i' && forall(k, 0, 16, callarg(Delete, 1, 1)[1+k] == pointId[k])
@@ -34,13 +39,33 @@ package pointstore
 
 //@ func CheckPointExists
 //@   property C01
+//@   pure
 //@   ensures err == nil && result0 == (callres(Get, 1, 0) != nil)
 //@   ensures len(callarg(Get, 1, 1)) == 18 && callarg(Get, 1, 1)[0] == 'p' && callarg(Get, 1, 1)[17] == 'i' && forall(k, 0, 16, callarg(Get, 1, 1)[1+k] == pointId[k])
 
 //@ func GetPointNodeIdByUUID
 //@   property C01
+//@   pure
 //@   safety -overflow
 //@   requires forallv(x uint64, true)
 //@   ensures callres(Get, 1, 0) == nil ==> err == ErrPointDoesNotExist
+//@   ensures err != nil ==> err == ErrPointDoesNotExist
 //@   ensures callres(Get, 1, 0) != nil && len(callres(Get, 1, 0)) >= 8 ==> err == nil && result0 == le64at(callres(Get, 1, 0), 0)
 //@   ensures callarg(Get, 1, 1)[0] == 'p' && callarg(Get, 1, 1)[17] == 'i' && forall(k, 0, 16, callarg(Get, 1, 1)[1+k] == pointId[k])
+
+//@ func GetPointByUUID
+//@   property C01
+//@   pure
+//@   safety -overflow
+//@   ensures err != nil ==> err == ErrPointDoesNotExist
+//@   ensures err == nil ==> result0.Point.Id == pointId && result0.NodeId == callres(GetPointNodeIdByUUID, 1, 0)
+//@   ensures err == nil ==> ncalls(Get) == 1 && callarg(Get, 1, 1)[0] == 'n' && callarg(Get, 1, 1)[9] == 'd' && le64at(callarg(Get, 1, 1), 1) == result0.NodeId && result0.Point.Data == callres(Get, 1, 0)
+
+//@ func GetPointByNodeId
+//@   property C01 C06
+//@   pure
+//@   safety -overflow
+//@   ensures err == nil ==> result0.NodeId == nodeId
+//@   ensures callarg(Get, 1, 1)[0] == 'n' && callarg(Get, 1, 1)[9] == 'i' && le64at(callarg(Get, 1, 1), 1) == nodeId
+//@   ensures err == nil && withData ==> ncalls(Get) == 2 && callarg(Get, 2, 1)[0] == 'n' && callarg(Get, 2, 1)[9] == 'd' && le64at(callarg(Get, 2, 1), 1) == nodeId && result0.Point.Data == callres(Get, 2, 0)
+//@   ensures err == nil && !withData ==> ncalls(Get) == 1 && result0.Point.Data == nil
